@@ -3,6 +3,7 @@
 mod checks;
 mod driver;
 mod faults;
+mod frames;
 mod model;
 mod prng;
 mod sched;
